@@ -228,9 +228,9 @@ def _build(spec, rso_mod=None, variant=None):
     crng = np.random.default_rng(spec['spell'] + 4711 + int(variant.get('respell', 0)))
 
     def set_container(cons):
-        k = int(crng.integers(6))
-        if k == 0:
-            return (list(cons),)
+        k = int(crng.integers(11)) - 5
+        if k <= 0:
+            return (cons,)                              # the list object itself (the common way)
         if k == 1:
             return tuple(cons)                          # several arguments
         if k == 2:
